@@ -37,7 +37,7 @@ func directed() []rpcsim.Directed {
 		{Sc: one("d14-ack-and-timer", 2, ack1, adv3), Repeat: 40, Script: []string{
 			"start 1 1 7", "sret 1 ok", "ack 1", "adv 3", "run 1"}},
 		{Sc: one("d14-result-and-timer", 2, res0, adv3), Repeat: 40, Script: []string{
-			"start 1 1 7", "sret 1 ok", "nres 0 1 100", "nrun 0", "nrun 0", "nwrite 0 ok", "adv 3", "run 1"}},
+			"start 1 1 7", "sret 1 ok", "nres 0 1 100", "nrun 0", "nrun 0", "nrun 0", "nwrite 0 ok", "adv 3", "run 1"}},
 		// a batch in which an id nobody waits for precedes the pending one: the ack must still count
 		{Sc: one("ack-batch-unknown-first", 2, rpcsim.Option{Kind: "ack", IDs: []int64{90, 1}}, adv3), Script: []string{
 			"start 1 1 7", "sret 1 ok", "ack 90 1", "adv 3", "run 1", "run 1"}},
